@@ -64,23 +64,30 @@ inductive ScanItem where
   | unanalyzable (text : String)
   deriving Repr, DecidableEq
 
-/-- the scanner loop; `fuel` bounds the number of iterations (each consumes ≥ 1 char) -/
-def scanAux : Nat → List Char → List ScanItem
+/-- the scanner loop; `fuel` bounds the number of iterations (each consumes ≥ 1 char).  With `ps` the openers
+    `<(` and `>(` count like `$(`: bash performs process substitution in that kind of text -/
+def scanAux (ps : Bool) : Nat → List Char → List ScanItem
   | 0, _ => []
   | _, [] => []
-  | n + 1, '$' :: '(' :: t =>
-      match findEnd (t.length + 1) t 1 true none [] with
-      | .found inner rest rel => .sub (String.ofList inner) rel :: scanAux n rest
-      | .none rel =>
-        (if rel then [] else [ScanItem.unanalyzable (String.ofList ('$' :: '(' :: t))]) ++ scanAux n ('(' :: t)
+  | n + 1, c :: '(' :: t =>
+      if c = '$' || (ps && (c = '<' || c = '>')) then
+        match findEnd (t.length + 1) t 1 true none [] with
+        | .found inner rest rel => .sub (String.ofList inner) rel :: scanAux ps n rest
+        | .none rel =>
+          (if rel then [] else [ScanItem.unanalyzable (String.ofList (c :: '(' :: t))]) ++ scanAux ps n ('(' :: t)
+      else if c = '`' then
+        match findTick ('(' :: t) [] with
+        | some (inner, rest) => .sub (String.ofList inner) (!inner.contains '\\') :: scanAux ps n rest
+        | none => scanAux ps n ('(' :: t)
+      else scanAux ps n ('(' :: t)
   | n + 1, '`' :: t =>
       match findTick t [] with
-      | some (inner, rest) => .sub (String.ofList inner) (!inner.contains '\\') :: scanAux n rest
-      | none => scanAux n t
-  | n + 1, _ :: t => scanAux n t
+      | some (inner, rest) => .sub (String.ofList inner) (!inner.contains '\\') :: scanAux ps n rest
+      | none => scanAux ps n t
+  | n + 1, _ :: t => scanAux ps n t
 
-/-- what `_analyze_string_cmdsubs s` re-analyses, in order -/
-def scanItems (s : String) : List ScanItem := scanAux (s.toList.length + 1) s.toList
+/-- what `_analyze_string_cmdsubs s` re-analyses, in order (`ps` = its `procsub` argument) -/
+def scanItems (ps : Bool) (s : String) : List ScanItem := scanAux ps (s.toList.length + 1) s.toList
 
 /-- what follows the first `$((` of a word's source, if there is one -/
 def afterArithOpen : List Char → Option (List Char)
